@@ -584,6 +584,11 @@ PINNED = [
     ("unit-conv", "en", [[lit(5), T("kb", "unit"), conn("to"), T("mb", "unit")]]),
     ("var-number", "en", [[T("x", "vardef"), op("="), lit(3)], [T("x", "var"), op("+"), lit(1)]]),
     ("date-at", "en", [[lit(5), T("march", "month"), lit(2020), conn("at"), lit("12:30")]]),
+    # a variable re-assigned and used: every occurrence may be written in another letter case
+    ("var-reassign", "en", [[T("total", "vardef"), op("="), lit(1)], [T("total", "vardef"), op("="), lit(2)],
+                            [T("total", "var"), op("+"), lit(1)]]),
+    ("var-reassign", "en", [[T("rate", "vardef"), op("="), lit(5)], [T("rate", "vardef"), op("="), T("rate", "var"), op("*"), lit(2)],
+                            [T("rate", "var")]]),
     # '-' directly in front of the digit: date + negative duration (was C16-K1, repaired in /repo acb6397)
     ("date-arith", "en", [[lit(12), T("jul", "month"), lit(1997), op("-", ""), lit(1, ""), T("year", "dur")]]),
     ("date-arith", "en", [[lit(5), T("jan", "month"), lit(2020), op("-", ""), lit(1, ""), T("month", "dur")]]),
@@ -599,7 +604,8 @@ def generate(rng, tier):
     n = 640 if tier == "quick" else 6000
     cases = []
     for kind, lang, lines in PINNED:
-        cases.append(make_case(rng, kind, lines, lang, compacted=True))
+        for _ in range(6 if kind == "var-reassign" else 1):
+            cases.append(make_case(rng, kind, lines, lang, compacted=(kind != "var-reassign")))
     m = 45 if tier == "quick" else 300
     for i in range(m):
         cases.append(empty_case(rng, i))
